@@ -416,7 +416,7 @@ Section Chain.
   Variables server path : bytes.
 
   Definition csp_step (h : headers) : list bytes :=
-    match rs_get rules path with
+    match rs_get rules (csp_path path) with
     | Some rule =>
         match to_header_nonce rule (h_get H_NONCE h) with
         | Some v => [v]
@@ -427,27 +427,27 @@ Section Chain.
 
   Lemma pkg_csp_csp h : h_all H_CSP (pkg_csp rules path h) = csp_step h.
   Proof.
-    unfold pkg_csp, csp_step. destruct (rs_get rules path) as [rule|].
+    unfold pkg_csp, pkg_csp_with, csp_step. destruct (rs_get rules (csp_path path)) as [rule|].
     - destruct (to_header_nonce rule (h_get H_NONCE h)) as [v|]; destruct (h_get H_NONCE h);
         rewrite ?(h_all_remove_other H_NONCE H_CSP) by reflexivity; rewrite ?h_all_insert_same; reflexivity.
     - destruct (h_get H_NONCE h); rewrite ?(h_all_remove_other H_NONCE H_CSP) by reflexivity; reflexivity.
   Qed.
   Lemma pkg_csp_nonce h : h_all H_NONCE (pkg_csp rules path h) = [].
   Proof.
-    unfold pkg_csp. destruct (h_get H_NONCE h) eqn:G; [apply h_all_remove_same|].
+    unfold pkg_csp, pkg_csp_with. destruct (h_get H_NONCE h) eqn:G; [apply h_all_remove_same|].
     apply h_get_none_all in G.
-    destruct (rs_get rules path) as [rule|]; [|exact G].
+    destruct (rs_get rules (csp_path path)) as [rule|]; [|exact G].
     destruct (to_header_nonce rule None); [|exact G].
     rewrite (h_all_insert_other H_CSP H_NONCE) by reflexivity. exact G.
   Qed.
   Lemma pkg_csp_other m h : beq H_CSP m = false -> beq H_NONCE m = false -> h_all m (pkg_csp rules path h) = h_all m h.
   Proof.
-    intros D1 D2. unfold pkg_csp.
-    assert (E : h_all m (match rs_get rules path with
+    intros D1 D2. unfold pkg_csp, pkg_csp_with.
+    assert (E : h_all m (match rs_get rules (csp_path path) with
                          | Some rule => match to_header_nonce rule (h_get H_NONCE h) with
                                         | Some v => h_insert H_CSP v h | None => h end
                          | None => h end) = h_all m h).
-    { destruct (rs_get rules path) as [rule|]; [|reflexivity].
+    { destruct (rs_get rules (csp_path path)) as [rule|]; [|reflexivity].
       destruct (to_header_nonce rule (h_get H_NONCE h)); [|reflexivity]. apply h_all_insert_other. exact D1. }
     destruct (h_get H_NONCE h); [rewrite (h_all_remove_other H_NONCE m _ D2)|]; exact E.
   Qed.
@@ -479,7 +479,7 @@ Section Chain.
 End Chain.
 
 Lemma csp_step_spec hist rules path h : rs_reach hist rules -> csp_step rules path h = spec_csp hist path h.
-Proof. intros H. unfold csp_step, spec_csp. rewrite (rs_get_resolve hist rules path H). reflexivity. Qed.
+Proof. intros H. unfold csp_step, spec_csp. rewrite (rs_get_resolve hist rules (csp_path path) H). reflexivity. Qed.
 
 (** always_headers / internal_header_hidden, for every response head [h] that reaches the chain *)
 Lemma chain_always_headers hist rules server path h :
@@ -621,7 +621,7 @@ Lemma h_get_insert_same n v h : h_get n (h_insert n v h) = Some v.
 Proof. rewrite h_get_hd, h_all_insert_same. reflexivity. Qed.
 
 Definition sp_code (p : server_pref) : N :=
-  match p with SNone => Cache.SP_NONE | SFull => Cache.SP_FULL | SQueryMatters => Cache.SP_QUERY end.
+  match p with SNone => Cache.SP_NONE | SFull => Cache.SP_FULL | SQueryMatters => Cache.SP_QUERY | SMaxAge => Cache.SP_MAXAGE end.
 Definition fat_of (status : N) (compress : bool) (p : page) : Cache.fat :=
   Cache.mkFat status (pg_headers p) (pg_body p) (sp_code (pg_pref p)) compress.
 
@@ -640,29 +640,38 @@ Proof.
   rewrite andb_false_r. reflexivity.
 Qed.
 
-Lemma page_history_nonce rng handler : forall n calls,
-  page_history nonce_rewrite rng true handler n {| st_calls := calls; st_cache := None |}
-  = Ok ({| st_calls := (calls + n)%nat; st_cache := None |},
+(** the line [!> nonce]: one draw, the reply the property demands *)
+Lemma chain_nonce_line guard rng handler k :
+  present_chain guard nonce_rewrite rng [DNonce] k handler = Ok (S k, nonce_reply (rng (S k)) handler).
+Proof.
+  unfold present_chain. cbn [fold_left present_step obind fst snd]. unfold nonce_present.
+  rewrite nonce_rewrite_spec. cbn [obind fst snd]. unfold nonce_guard, nonce_reply.
+  destruct (guard && _); reflexivity.
+Qed.
+
+Lemma page_history_nonce guard rng handler : forall n calls,
+  page_history guard nonce_rewrite rng [DNonce] handler n {| st_calls := calls; st_draws := calls; st_cache := None |}
+  = Ok ({| st_calls := (calls + n)%nat; st_draws := (calls + n)%nat; st_cache := None |},
         map (fun k => nonce_reply (rng k) handler) (seq (S calls) n)).
 Proof.
   induction n as [|n IH]; intros calls; cbn [page_history seq map].
   - rewrite Nat.add_0_r. reflexivity.
-  - unfold page_request. cbn [st_cache st_calls]. unfold nonce_present.
-    rewrite nonce_rewrite_spec. cbn [obind pg_pref admits fst snd].
+  - unfold page_request. cbn [st_cache st_calls st_draws]. rewrite chain_nonce_line.
+    cbn [obind pg_pref nonce_reply admits andb fst snd].
     rewrite (IH (S calls)). cbn [obind fst snd]. rewrite Nat.add_succ_r. reflexivity.
 Qed.
 
 (** nonce_not_cached: n requests for a nonce page are n computations, nothing is stored, and
     the k-th reply carries the k-th draw of the generator in header and body *)
-Lemma nonce_never_cached rng handler n :
-  page_history nonce_rewrite rng true handler n {| st_calls := O; st_cache := None |}
-  = Ok ({| st_calls := n; st_cache := None |}, map (fun k => nonce_reply (rng k) handler) (seq 1 n)).
-Proof. apply (page_history_nonce rng handler n O). Qed.
+Lemma nonce_never_cached guard rng handler n :
+  page_history guard nonce_rewrite rng [DNonce] handler n pstate0
+  = Ok ({| st_calls := n; st_draws := n; st_cache := None |}, map (fun k => nonce_reply (rng k) handler) (seq 1 n)).
+Proof. apply (page_history_nonce guard rng handler n O). Qed.
 
 (** ... so replies i <> j carry different values whenever the generator's draws differ *)
-Lemma nonce_replies_differ rng handler n i j :
+Lemma nonce_replies_differ guard rng handler n i j :
   (forall a b, a <> b -> rng a <> rng b) -> i <> j -> (i < n)%nat -> (j < n)%nat ->
-  forall st out, page_history nonce_rewrite rng true handler n {| st_calls := O; st_cache := None |} = Ok (st, out) ->
+  forall st out, page_history guard nonce_rewrite rng [DNonce] handler n pstate0 = Ok (st, out) ->
   exists ri rj, nth_error out i = Some ri /\ nth_error out j = Some rj /\
                 h_get H_NONCE (pg_headers ri) = Some (rng (S i)) /\ h_get H_NONCE (pg_headers rj) = Some (rng (S j)) /\
                 rng (S i) <> rng (S j).
@@ -678,15 +687,192 @@ Proof.
 Qed.
 
 (** a cacheable page without the extension line is computed once (contrast) *)
-Lemma plain_page_cached rng handler :
-  admits (pg_pref handler) = true ->
-  page_history nonce_rewrite rng false handler 2 {| st_calls := O; st_cache := None |}
-  = Ok ({| st_calls := 1; st_cache := Some handler |}, [handler; handler]).
-Proof. intros H. cbn. rewrite H. reflexivity. Qed.
+Lemma plain_page_cached guard rng handler :
+  admits (pg_pref handler) = true -> status_not_cached (pg_status handler) = false ->
+  h_all H_NONCE (pg_headers handler) = [] ->
+  page_history guard nonce_rewrite rng [] handler 2 pstate0
+  = Ok ({| st_calls := 1; st_draws := 0; st_cache := Some handler |}, [handler; handler]).
+Proof.
+  intros H H2 H3. cbn. unfold nonce_guard. rewrite H3. cbn [is_nil negb]. rewrite andb_false_r.
+  cbn. rewrite H, H2. reflexivity.
+Qed.
+
+(** ---- any line of directives ---- *)
+Definition nonce_of (p : page) : option bytes := h_get H_NONCE (pg_headers p).
+
+Lemma fold_step_not_ok rewrite rng line : forall o, (forall v, o <> Ok v) ->
+  fold_left (present_step rewrite rng) line o = o.
+Proof.
+  induction line as [|d line IH]; intros o Ho; [reflexivity|]. cbn [fold_left].
+  assert (E : present_step rewrite rng o d = o).
+  { unfold present_step. destruct o as [v| |]; [exfalso; exact (Ho v eq_refl)|reflexivity|reflexivity]. }
+  rewrite E. apply IH. exact Ho.
+Qed.
+
+(** the repair: whatever the line, a response that carries a nonce has no server cache preference *)
+Lemma guard_pref rewrite rng line k p k' p' :
+  present_chain true rewrite rng line k p = Ok (k', p') ->
+  nonce_of p' <> None -> pg_pref p' = SNone.
+Proof.
+  unfold present_chain. destruct (fold_left _ line _) as [[k1 p1]| |]; cbn [obind]; try discriminate.
+  intros H. inversion H; subst k' p'. clear H. cbn [snd]. unfold nonce_guard, nonce_of. cbn [andb].
+  rewrite h_get_hd. destruct (h_all H_NONCE (pg_headers p1)) eqn:E; cbn [is_nil negb].
+  - rewrite E. intros C. exfalso. apply C. reflexivity.
+  - reflexivity.
+Qed.
+
+(** the nonce a page carries after the directives is a draw made while they ran *)
+Definition nonce_between (rng : nat -> bytes) (lo hi : nat) (p : page) : Prop :=
+  nonce_of p = None \/ exists m, (lo < m <= hi)%nat /\ nonce_of p = Some (rng m).
+
+Lemma nonce_between_mono rng lo hi hi' p : (hi <= hi')%nat -> nonce_between rng lo hi p -> nonce_between rng lo hi' p.
+Proof. intros L [H|[m [Hm H]]]; [left; exact H|right; exists m; split; [lia|exact H]]. Qed.
+
+Lemma present_step_inv rewrite rng k0 d k p k' p' :
+  present_step rewrite rng (Ok (k, p)) d = Ok (k', p') -> (k0 <= k)%nat -> nonce_between rng k0 k p ->
+  (k <= k')%nat /\ nonce_between rng k0 k' p'.
+Proof.
+  unfold present_step. cbn [obind fst snd]. intros H L B.
+  destruct d as [|[s|]|matched| |].
+  - unfold nonce_present in H. destruct (rewrite (rng (S k)) (pg_body p)) as [b| |]; cbn [obind] in H; try discriminate.
+    inversion H; subst k' p'. split; [lia|]. right. exists (S k). split; [lia|].
+    unfold nonce_of. cbn [pg_headers]. apply h_get_insert_same.
+  - inversion H; subst k' p'. split; [lia|]. destruct (pg_marker p); exact B.
+  - inversion H; subst k' p'. split; [lia|exact B].
+  - inversion H; subst k' p'. split; [lia|]. destruct matched; [exact B|left; reflexivity].
+  - inversion H; subst k' p'. split; [lia|]. left. reflexivity.
+  - inversion H; subst k' p'. split; [lia|exact B].
+Qed.
+
+Lemma fold_step_inv rewrite rng k0 : forall line k p k' p',
+  fold_left (present_step rewrite rng) line (Ok (k, p)) = Ok (k', p') -> (k0 <= k)%nat -> nonce_between rng k0 k p ->
+  (k <= k')%nat /\ nonce_between rng k0 k' p'.
+Proof.
+  induction line as [|d line IH]; intros k p k' p' H L B; cbn [fold_left] in H.
+  - inversion H; subst k' p'. split; [lia|exact B].
+  - destruct (present_step rewrite rng (Ok (k, p)) d) as [[k1 p1]| |] eqn:E.
+    + destruct (present_step_inv rewrite rng k0 d k p k1 p1 E L B) as [L1 B1].
+      destruct (IH k1 p1 k' p' H ltac:(lia) B1) as [L2 B2]. split; [lia|exact B2].
+    + rewrite fold_step_not_ok in H by (intros v; discriminate). discriminate.
+    + rewrite fold_step_not_ok in H by (intros v; discriminate). discriminate.
+Qed.
+
+Lemma nonce_of_guard g p : nonce_of (nonce_guard g p) = nonce_of p.
+Proof. unfold nonce_guard. destruct (g && _); reflexivity. Qed.
+
+Lemma present_chain_inv guard rewrite rng line k p k' p' :
+  present_chain guard rewrite rng line k p = Ok (k', p') -> nonce_of p = None ->
+  (k <= k')%nat /\ nonce_between rng k k' p'.
+Proof.
+  unfold present_chain. intros H Hp.
+  destruct (fold_left _ line _) as [[k1 p1]| |] eqn:E; cbn [obind] in H; try discriminate.
+  inversion H; subst k' p'. cbn [fst snd].
+  destruct (fold_step_inv rewrite rng k line k p k1 p1 E (Nat.le_refl k) (or_introl Hp)) as [L B].
+  split; [exact L|]. unfold nonce_between. rewrite nonce_of_guard. exact B.
+Qed.
+
+(** replies of a history: those that carry a nonce carry draws with strictly increasing indices *)
+Inductive fresh_seq (rng : nat -> bytes) : nat -> list page -> nat -> Prop :=
+| fs_nil d : fresh_seq rng d [] d
+| fs_cons d d1 d' r out : (d <= d1)%nat -> nonce_between rng d d1 r -> fresh_seq rng d1 out d' -> fresh_seq rng d (r :: out) d'.
+
+Lemma fresh_seq_le rng d out d' : fresh_seq rng d out d' -> (d <= d')%nat.
+Proof. induction 1; lia. Qed.
+
+Lemma fresh_seq_in rng d out d' : fresh_seq rng d out d' ->
+  forall j r x, nth_error out j = Some r -> nonce_of r = Some x -> exists m, (d < m <= d')%nat /\ x = rng m.
+Proof.
+  induction 1 as [d|d d1 d' r0 out L B F IH]; intros j r x Hn Hx.
+  - destruct j; discriminate.
+  - pose proof (fresh_seq_le _ _ _ _ F) as L2. destruct j as [|j]; cbn [nth_error] in Hn.
+    + inversion Hn; subst r0. destruct B as [B|[m [Hm B]]]; [rewrite B in Hx; discriminate|].
+      rewrite B in Hx. inversion Hx. exists m. split; [lia|reflexivity].
+    + destruct (IH j r x Hn Hx) as [m [Hm E]]. exists m. split; [lia|exact E].
+Qed.
+
+Lemma fresh_seq_distinct rng d out d' : (forall a b, a <> b -> rng a <> rng b) -> fresh_seq rng d out d' ->
+  forall i j ri rj x y, (i < j)%nat -> nth_error out i = Some ri -> nth_error out j = Some rj ->
+  nonce_of ri = Some x -> nonce_of rj = Some y -> x <> y.
+Proof.
+  intros Inj. induction 1 as [d|d d1 d' r0 out L B F IH]; intros i j ri rj x y Hij Hi Hj Hx Hy.
+  - destruct i; discriminate.
+  - destruct j as [|j]; [lia|]. cbn [nth_error] in Hj. destruct i as [|i]; cbn [nth_error] in Hi.
+    + inversion Hi; subst r0. destruct B as [B|[m [Hm B]]]; [rewrite B in Hx; discriminate|].
+      rewrite B in Hx. inversion Hx; subst x.
+      destruct (fresh_seq_in rng d1 out d' F j rj y Hj Hy) as [m2 [Hm2 ->]]. apply Inj. lia.
+    + apply (IH i j ri rj x y); try assumption. lia.
+Qed.
+
+Definition cache_clean (st : pstate) : Prop :=
+  match st_cache st with Some p => nonce_of p = None | None => True end.
+
+Lemma page_history_fresh rewrite rng line handler : nonce_of handler = None ->
+  forall n st st' out, cache_clean st ->
+  page_history true rewrite rng line handler n st = Ok (st', out) ->
+  cache_clean st' /\ fresh_seq rng (st_draws st) out (st_draws st').
+Proof.
+  intros Hh. induction n as [|n IH]; intros st st' out C H; cbn [page_history] in H.
+  - inversion H; subst st' out. split; [exact C|constructor].
+  - destruct (page_request true rewrite rng line handler st) as [[st1 r]| |] eqn:E; cbn [obind] in H; try discriminate.
+    cbn [fst snd] in H.
+    destruct (page_history true rewrite rng line handler n st1) as [[st2 out2]| |] eqn:E2; cbn [obind] in H; try discriminate.
+    inversion H; subst st' out. clear H. cbn [fst snd].
+    assert (S1 : cache_clean st1 /\ (st_draws st <= st_draws st1)%nat /\ nonce_between rng (st_draws st) (st_draws st1) r).
+    { unfold page_request in E. unfold cache_clean in C. destruct (st_cache st) as [stored|] eqn:SC.
+      - inversion E; subst st1 r. split; [unfold cache_clean; rewrite SC; exact C|]. split; [lia|left; exact C].
+      - destruct (present_chain true rewrite rng line (st_draws st) handler) as [[k1 p1]| |] eqn:PC; cbn [obind] in E; try discriminate.
+        inversion E; subst st1 r. clear E. cbn [fst snd st_draws].
+        destruct (present_chain_inv true rewrite rng line (st_draws st) handler k1 p1 PC Hh) as [L B].
+        split; [|split; [exact L|exact B]].
+        unfold cache_clean. cbn [st_cache].
+        destruct (admits (pg_pref p1)) eqn:A; cbn [andb]; [|exact I].
+        destruct (negb (status_not_cached (pg_status p1))); [|exact I].
+        destruct (nonce_of p1) eqn:NO; [|reflexivity].
+        rewrite (guard_pref rewrite rng line (st_draws st) handler k1 p1 PC) in A; [discriminate|].
+        rewrite NO. discriminate. }
+    destruct S1 as [C1 [L1 B1]]. destruct (IH st1 st2 out2 C1 E2) as [C2 F2].
+    split; [exact C2|]. exact (fs_cons rng _ _ _ _ _ L1 B1 F2).
+Qed.
+
+(** nonce_not_cached_any_line: whatever directives the first line of the page has — and in whatever
+    order — nothing that carries a nonce is in the cache afterwards, and two replies that carry a nonce
+    carry different ones (draws of the generator with different indices) *)
+Lemma any_line_fresh rewrite rng line handler n st out :
+  nonce_of handler = None ->
+  page_history true rewrite rng line handler n pstate0 = Ok (st, out) ->
+  (forall p, st_cache st = Some p -> nonce_of p = None) /\
+  ((forall a b, a <> b -> rng a <> rng b) ->
+   forall i j ri rj x y, i <> j -> nth_error out i = Some ri -> nth_error out j = Some rj ->
+   nonce_of ri = Some x -> nonce_of rj = Some y -> x <> y).
+Proof.
+  intros Hh H. destruct (page_history_fresh rewrite rng line handler Hh n pstate0 st out I H) as [C F].
+  split.
+  - intros p Hp. unfold cache_clean in C. rewrite Hp in C. exact C.
+  - intros Inj i j ri rj x y Hij Hi Hj Hx Hy.
+    destruct (Nat.lt_ge_cases i j) as [L|L].
+    + exact (fresh_seq_distinct rng _ _ _ Inj F i j ri rj x y L Hi Hj Hx Hy).
+    + intros E. symmetry in E. revert E.
+      apply (fresh_seq_distinct rng _ _ _ Inj F j i rj ri y x); try assumption. lia.
+Qed.
+
+(** before the repair: [!> nonce &> cache server:full] is stored with its nonce and served again *)
+Definition line_v0_handler : page :=
+  {| pg_status := 200; pg_body := B "<script nonce=""x"">"; pg_headers := []; pg_pref := SNone; pg_marker := false |}.
+Lemma line_v0_cached :
+  (exists r, page_history false nonce_rewrite sym_nonce [DNonce; DCache (Some SFull)] line_v0_handler 2 pstate0
+             = Ok ({| st_calls := 1; st_draws := 1; st_cache := Some r |}, [r; r]) /\ nonce_of r = Some (sym_nonce 1)) /\
+  (exists r1 r2, page_history true nonce_rewrite sym_nonce [DNonce; DCache (Some SFull)] line_v0_handler 2 pstate0
+             = Ok ({| st_calls := 2; st_draws := 2; st_cache := None |}, [r1; r2]) /\
+             nonce_of r1 = Some (sym_nonce 1) /\ nonce_of r2 = Some (sym_nonce 2)).
+Proof.
+  split.
+  - eexists. split; [vm_compute; reflexivity|vm_compute; reflexivity].
+  - eexists. eexists. split; [vm_compute; reflexivity|split; vm_compute; reflexivity].
+Qed.
 
 (** the page and its policy carry the same value *)
 Lemma page_and_policy_same_nonce hist rules server path (rng : nat -> bytes) handler rule (k : nat) :
-  rs_reach hist rules -> resolve hist path = Some rule ->
+  rs_reach hist rules -> resolve hist (csp_path path) = Some rule ->
   let reply := nonce_reply (rng k) handler in
   h_all H_CSP (package_chain rules server path (pg_headers reply))
   = match to_header_nonce rule (Some (rng k)) with Some v => [v] | None => h_all H_CSP (pg_headers handler) end /\
@@ -703,23 +889,98 @@ Proof.
     rewrite nonce_rewrite_spec in Hr. inversion Hr. reflexivity.
 Qed.
 
-(** ---- the send path of the fixture: every reply went through the chain ---- *)
-Lemma conn_run_headers rewrite hist rules server hs : rs_reach hist rules ->
-  forall rs st out, conn_run rewrite (fun p h => package_chain rules server p h) hs st rs = Ok out ->
-  Forall (fun rep => h_all H_SERVER (rp_headers rep) = [server] /\ h_all H_NONCE (rp_headers rep) = [] /\
-                     h_all H_REFERRER (rp_headers rep) <> [] /\
-                     exists p h, h_all H_CSP (rp_headers rep) = spec_csp hist p h /\
-                                 h_all H_REFERRER (rp_headers rep) = spec_referrer h) out.
+(** ---- the flags of [with_server_header] ---- *)
+Lemma chain_cfg_unfold pl ov rules server path h :
+  package_chain_cfg (mkCfg true true true pl ov) rules server path h
+  = pkg_server_flags pl ov server (pkg_referrer (pkg_csp rules path h)).
+Proof. reflexivity. Qed.
+
+Lemma chain_cfg_new rules server path h : package_chain_cfg cfg_new rules server path h = package_chain rules server path h.
+Proof.
+  unfold cfg_new. rewrite chain_cfg_unfold, chain_unfold. unfold pkg_server_flags, pkg_server, server_value. rewrite app_nil_r. reflexivity.
+Qed.
+
+Lemma server_flags_other pl ov server m h : beq H_SERVER m = false -> h_all m (pkg_server_flags pl ov server h) = h_all m h.
+Proof.
+  intros D. unfold pkg_server_flags. destruct ov.
+  - apply h_all_insert_other. exact D.
+  - rewrite h_all_app, (h_all_single_other H_SERVER m _ D). apply app_nil_r.
+Qed.
+
+Lemma chain_flags_headers hist rules pl ov server path h :
+  rs_reach hist rules ->
+  h_all H_CSP (package_chain_cfg (mkCfg true true true pl ov) rules server path h) = spec_csp hist path h /\
+  h_all H_REFERRER (package_chain_cfg (mkCfg true true true pl ov) rules server path h) = spec_referrer h /\
+  h_all H_SERVER (package_chain_cfg (mkCfg true true true pl ov) rules server path h) = spec_server pl ov server h /\
+  h_all H_NONCE (package_chain_cfg (mkCfg true true true pl ov) rules server path h) = [].
+Proof.
+  intros HR. rewrite chain_cfg_unfold.
+  split; [|split; [|split]].
+  - rewrite (server_flags_other pl ov server H_CSP) by reflexivity.
+    unfold pkg_referrer. rewrite (h_all_or_insert_other H_REFERRER H_CSP) by reflexivity.
+    rewrite pkg_csp_csp. apply csp_step_spec. exact HR.
+  - rewrite (server_flags_other pl ov server H_REFERRER) by reflexivity.
+    unfold pkg_referrer, spec_referrer. rewrite h_all_or_insert_same. rewrite (pkg_csp_other rules path H_REFERRER) by reflexivity. reflexivity.
+  - unfold pkg_server_flags, spec_server. destruct ov.
+    + apply h_all_insert_same.
+    + rewrite h_all_app, h_all_single_same. f_equal.
+      unfold pkg_referrer. rewrite (h_all_or_insert_other H_REFERRER H_SERVER) by reflexivity.
+      apply (pkg_csp_other rules path H_SERVER); reflexivity.
+  - rewrite (server_flags_other pl ov server H_NONCE) by reflexivity.
+    unfold pkg_referrer. rewrite (h_all_or_insert_other H_REFERRER H_NONCE) by reflexivity. apply pkg_csp_nonce.
+Qed.
+
+(** the rule is looked up for the path the file is read from; before that repair it was not *)
+Definition raw_hist : list (bytes * csp_rule) :=
+  [(B "/*", csp_default_rule); (B "/uc/*", (set_nth 10 [B "'none'"] (fst csp_empty), []))].
+Lemma raw_path_wrong_rule :
+  h_all H_CSP (package_chain_raw (rs_build rs_add raw_hist) (B "S") (B "/%75c/evil.html") [])
+    = [B "default-src 'self'; style-src 'self' 'unsafe-inline'"] /\
+  spec_csp raw_hist (B "/%75c/evil.html") [] = [B "script-src 'none'"] /\
+  h_all H_CSP (package_chain (rs_build rs_add raw_hist) (B "S") (B "/%75c/evil.html") []) = [B "script-src 'none'"].
+Proof. vm_compute. repeat split; reflexivity. Qed.
+
+(** ---- the send path of the fixture: every reply went through the chain, with the request's path ---- *)
+Lemma conn_step_path guard rewrite hs st r st' rep p :
+  conn_step guard rewrite hs st r = Ok (st', rep, p) -> p = prime_path (cr_path r).
+Proof.
+  unfold conn_step. match goal with |- obind ?X _ = _ -> _ => destruct X as [[s1 r1]| |] end; cbn [obind]; try discriminate.
+  intros H. inversion H. reflexivity.
+Qed.
+
+Lemma conn_run_headers guard rewrite hist rules pl ov server hs : rs_reach hist rules ->
+  forall rs st out,
+  conn_run guard rewrite (package_chain_cfg (mkCfg true true true pl ov) rules server) hs st rs = Ok out ->
+  Forall2 (fun r rep => exists h,
+             h_all H_CSP (rp_headers rep) = spec_csp hist (prime_path (cr_path r)) h /\
+             h_all H_REFERRER (rp_headers rep) = spec_referrer h /\
+             h_all H_SERVER (rp_headers rep) = spec_server pl ov server h /\
+             h_all H_NONCE (rp_headers rep) = []) rs out.
 Proof.
   intros HR. induction rs as [|r rs IH]; intros st out H; cbn [conn_run] in H.
   - inversion H. constructor.
-  - destruct (conn_step rewrite hs st r) as [[[st' rep] p]| |]; cbn [obind] in H; try discriminate.
+  - destruct (conn_step guard rewrite hs st r) as [[[st' rep] p]| |] eqn:ES; cbn [obind] in H; try discriminate.
     cbn [fst snd] in H.
-    destruct (conn_run rewrite _ hs st' rs) as [out'| |] eqn:E; cbn [obind] in H; try discriminate.
+    destruct (conn_run guard rewrite _ hs st' rs) as [out'| |] eqn:E; cbn [obind] in H; try discriminate.
     inversion H; subst out. constructor; [|apply (IH st' out' E)].
-    unfold conn_wire. cbn [rp_headers].
-    destruct (chain_always_headers hist rules server p (rp_headers rep) HR) as [E1 [E2 [E3 E4]]].
-    split; [exact E3|]. split; [exact E4|]. split.
-    + rewrite E2. unfold spec_referrer. destruct (h_all H_REFERRER (rp_headers rep)); discriminate.
-    + exists p, (rp_headers rep). split; assumption.
+    unfold conn_wire. cbn [rp_headers]. rewrite (conn_step_path _ _ _ _ _ _ _ _ ES).
+    exists (rp_headers rep). apply chain_flags_headers. exact HR.
+Qed.
+
+(** a rule that says something without a nonce says something with one *)
+Lemma to_header_nonce_some r n v : to_header_nonce r None = Some v -> exists v', to_header_nonce r n = Some v'.
+Proof.
+  unfold to_header_nonce. destruct (forallb is_nil (fst r) && forallb (fun u => is_nil (snd u)) (snd r)); cbn [andb].
+  - discriminate.
+  - intros _. eexists. reflexivity.
+Qed.
+
+(** ... so when the most specific rule for the request's path says something, the reply carries exactly
+    its serialisation (with the nonce of the reply's page, if it has one) *)
+Lemma spec_csp_rule hist path h rule v0 :
+  resolve hist (csp_path path) = Some rule -> to_header_nonce rule None = Some v0 ->
+  exists v, to_header_nonce rule (h_get H_NONCE h) = Some v /\ spec_csp hist path h = [v].
+Proof.
+  intros R N. destruct (to_header_nonce_some rule (h_get H_NONCE h) v0 N) as [v E].
+  exists v. split; [exact E|]. unfold spec_csp. rewrite R, E. reflexivity.
 Qed.
